@@ -29,13 +29,13 @@ from .common import symbolic_run, Vals
 
 PROPERTY = "C18"
 
-SHAPES = {"s": (), "1": (4,), "2": (2, 3), "3": (2, 2, 2)}
+SHAPES = {"s": (), "z": (), "1": (4,), "2": (2, 3), "3": (2, 2, 2)}     # "z": rank-0 NumPy arrays (mutable scalars)
 KINDS = {"1": ["B", "T", "I", "N"], "2": ["B", "T", "I", "N", "P", "M"], "3": ["B", "T", "I", "N", "P", "M"]}
 OPS_SCALAR = ["stA", "seA", "adA", "adAB", "adN", "rsA", "rsAk", "rsAn"]
 OPS_ARRAY = OPS_SCALAR + ["mut", "sl", "sl2", "nest", "adS", "rsS", "stS", "seS"]
 
 BOUNDS = {
-    "quick": dict(history_length=4, shapes=["scalar", "(4,)", "(2,3)", "(2,2,2)"], dtypes=["real", "complex"],
+    "quick": dict(history_length=4, shapes=["scalar", "rank-0 array", "(4,)", "(2,3)", "(2,2,2)"], dtypes=["real", "complex"],
                   slice_kinds="B basic, T tuple of slices, I integer array (no repeats), N single integer, "
                               "P tuple of integer arrays (rank>=2), M basic slice mixed with an integer array (rank>=2; NumPy returns "
                               "a copy whose .base is not None); nested basic slice on B/T/N parents; two slice "
@@ -184,6 +184,7 @@ def _configs():
     for cplx in (False, True):
         for init in (False, True):
             cfgs.append(dict(shape="s", cplx=cplx, init=init, k1=None, k2=None))
+            cfgs.append(dict(shape="z", cplx=cplx, init=init, k1=None, k2=None))
     for sk in ("1", "2", "3"):
         kinds = KINDS[sk]
         for cplx in (False, True):
@@ -194,7 +195,7 @@ def _configs():
 
 
 def _cfg_name(c):
-    return "%s-%s-%s-%s%s" % ({"s": "scalar", "1": "1d", "2": "2d", "3": "3d"}[c["shape"]], "cplx" if c["cplx"] else "real",
+    return "%s-%s-%s-%s%s" % ({"s": "scalar", "z": "rank0", "1": "1d", "2": "2d", "3": "3d"}[c["shape"]], "cplx" if c["cplx"] else "real",
                               "init" if c["init"] else "noinit", c["k1"] or "", c["k2"] or "")
 
 
@@ -202,10 +203,11 @@ def _words(c, tier, nof=False):
     b = BOUNDS[tier]
     rnd = random.Random("C18/" + _cfg_name(c))
     sk = c["shape"]
-    if sk == "s":
+    if sk in ("s", "z"):
+        ops = OPS_SCALAR + (["mut"] if sk == "z" else [])
         if tier == "quick":
-            return all_words("s", OPS_SCALAR, 3, None, None) + sample_words("s", OPS_SCALAR, 4, 60, rnd, None, None)
-        return all_words("s", OPS_SCALAR, 4, None, None) + sample_words("s", OPS_SCALAR, 6, 200, rnd, None, None)
+            return all_words(sk, ops, 3, None, None) + sample_words(sk, ops, 4, 60, rnd, None, None)
+        return all_words(sk, ops, 4, None, None) + sample_words(sk, ops, 6, 200, rnd, None, None)
     full4 = tier == "thorough" and sk == "1"
     words = all_words(sk, OPS_ARRAY, b["exhaustive_len_1d"] if full4 else b["exhaustive_len"], c["k1"], c["k2"], nof)
     for L, n in b["sampled"]:
@@ -223,7 +225,7 @@ def items(tier):
     for c in _configs():
         name = _cfg_name(c)
         words = _words(c, tier, nof)
-        g = b["group_size"] if c["shape"] != "s" else 4 * b["group_size"]
+        g = b["group_size"] if c["shape"] not in ("s", "z") else 4 * b["group_size"]
         for j in range(0, len(words), g):
             out.append(dict(kind="hist", id="%s-g%02d" % (name, j // g), shape=c["shape"], cplx=c["cplx"], init=c["init"],
                             k1=c["k1"], k2=c["k2"], nof=nof, first=j, hist=words[j:j + g]))
@@ -405,8 +407,8 @@ class Checker:
 
 # ------------------------------------------------------------------------------------------------ one history
 class _Vgen:
-    def __init__(self, V, h, shape, cplx):
-        self.V, self.h, self.shape, self.cplx, self.k = V, h, shape, cplx, 0
+    def __init__(self, V, h, shape, cplx, rank0=False):
+        self.V, self.h, self.shape, self.cplx, self.k, self.rank0 = V, h, shape, cplx, 0, rank0
 
     def fresh(self, shape=None):
         shape = self.shape if shape is None else shape
@@ -415,7 +417,10 @@ class _Vgen:
         name = "v%d" % self.k
         self.k += 1
         if shape == ():
-            return self.V.cplx(name) if self.cplx else self.V.real(name)
+            v = self.V.cplx(name) if self.cplx else self.V.real(name)
+            if self.rank0:      # a rank-0 array: what NumPy reductions / upstream modules hand over, and mutable
+                return np.array(v, dtype=object) if self.V.symbolic else np.array(v)
+            return v
         return self.V.cplxs(name, shape) if self.cplx else self.V.reals(name, shape)
 
 
@@ -428,7 +433,7 @@ def run_history(V, P, cfg, h, word, upto=None):
     import pymoto as pym
     sk, cplx = cfg["shape"], cfg["cplx"]
     shape = SHAPES[sk]
-    gen = _Vgen(V, h, shape, cplx)
+    gen = _Vgen(V, h, shape, cplx, rank0=(sk == "z"))
     ck = Checker(P, "h%d|" % h)
 
     x0, y0 = gen.fresh(), gen.fresh()
